@@ -126,6 +126,14 @@ theorem trunc_side_default (g : GSpec) (v : Val) (r : List Char) (hpy : pyFormat
         simp only [Bool.or_eq_true, decide_eq_true_eq] at hf
         rcases hf with hf | hf <;> simp [hf]
       · split at hpy <;> cases hpy
+    | nan =>
+      simp only [] at hpy
+      split at hpy
+      · rename_i hf
+        unfold isF at hf
+        simp only [Bool.or_eq_true, decide_eq_true_eq] at hf
+        rcases hf with hf | hf <;> simp [hf]
+      · split at hpy <;> cases hpy
 
 /-- **format_field_width.** With the `t` flag and a non-zero width, whenever `format_field` returns
 at all the text has EXACTLY that width — shorter values are padded by python, longer ones cut. -/
@@ -258,6 +266,9 @@ theorem renderField_is_format_field (g : GSpec) (t : Bool) (sp : Spec) (v : Val)
         simp only [hg, hc, hpf, hw, fieldBody, hst, signStr_none g hs, isF, halt]
         rcases hal with ⟨ha, hsa⟩ | ⟨ha, hsa⟩ | ⟨ha, hsa⟩ <;>
           simp [ha, hsa, hz, hpr, GSpec.pyAlign, padNum_left_sign, padNum_right_sign, fixRepr_eq]
+      · simp only [hg, hc, hpf, hw, fieldBody, hst, signStr_none g hs, isF, halt]
+        rcases hal with ⟨ha, hsa⟩ | ⟨ha, hsa⟩ | ⟨ha, hsa⟩ <;>
+          simp [ha, hsa, hz, GSpec.pyAlign, padNum_left_sign, padNum_right_sign]
 
 open Layout in
 /-- the `Spec`s of a format string, in order -/
